@@ -331,3 +331,284 @@ func runNameEq(p *Program, r *RuleResult) {
 	r.count("functions below FreeNames/Substitute", nFns)
 	_ = nSites
 }
+
+// R-FRESH-TREES (C16, C13, C19), R-ENV-FIRST (C14, C16), R-ANNOTATIONS (C10, C16).
+func init() {
+	register(&Rule{Name: "R-FRESH-TREES", Min: 9,
+		Doc: "every toSessionType implementation returns a node freshly allocated in that call (a constructor result) or the conversion of a child; parsed types are never cached or shared between occurrences",
+		Run: runFreshTrees})
+	register(&Rule{Name: "R-ENV-FIRST", Min: 4,
+		Doc: "the type and function-signature environments are built from the whole declaration slices before the first per-declaration judgement in typecheckFunctionDefinitions and typecheckProcesses",
+		Run: runEnvFirst})
+	register(&Rule{Name: "R-ANNOTATIONS", Min: 5,
+		Doc: "every type annotation that enters the checker (function provider type, function parameter types, assumed-name types, process types, cut annotations) is passed through AddMissingModalities and then through the well-formedness check, whose error is propagated",
+		Run: runAnnotations})
+}
+
+func runFreshTrees(p *Program, r *RuleResult) {
+	I := p.Named(typesPkg, "SessionTypeInitial")
+	for _, T := range p.Implementers(I) {
+		fn := p.Method(T, "toSessionType")
+		ok := true
+		why := ""
+		n := 0
+		for _, b := range fn.Blocks {
+			for _, in := range b.Instrs {
+				ret, isRet := in.(*ssa.Return)
+				if !isRet {
+					continue
+				}
+				n++
+				v := ret.Results[0]
+				if mi, isMI := v.(*ssa.MakeInterface); isMI {
+					v = mi.X
+				}
+				call, isCall := v.(*ssa.Call)
+				switch {
+				case !isCall:
+					ok, why = false, "returns a value that is not the result of a constructor or of a child's conversion"
+				case call.Common().IsInvoke() && call.Common().Method.Name() == fn.Name():
+					// conversion of a child
+				case call.Common().StaticCallee() != nil && p.returnsFreshAlloc(call.Common().StaticCallee(), 0):
+				default:
+					ok, why = false, "returns the result of "+calleeName(call)+", which does not allocate a fresh node"
+				}
+			}
+		}
+		v := Holds
+		if !ok || n == 0 {
+			v = Violated
+		}
+		r.add(fnName(fn), "returns-fresh-node", v, p.pos(fn.Pos()), why)
+	}
+}
+
+func runEnvFirst(p *Program, r *RuleResult) {
+	for _, name := range []string{"typecheckFunctionDefinitions", "typecheckProcesses"} {
+		fn := p.Func(processPkg, name)
+		view := p.View(fn)
+		var judgements []*ssa.Call
+		for _, c := range p.callsIn(fn) {
+			if call, ok := c.(*ssa.Call); ok && call.Common().IsInvoke() && call.Common().Method.Name() == "typecheckForm" {
+				judgements = append(judgements, call)
+			}
+		}
+		if len(judgements) == 0 {
+			r.add(fnName(fn), "judgement", Undecided, p.pos(fn.Pos()), "no root judgement found")
+			continue
+		}
+		for _, envName := range []string{"LabelledTypesEnv", "FunctionTypesEnv"} {
+			construct := "env-before-judgements:" + envName
+			okAll := true
+			why := ""
+			for _, j := range judgements {
+				var arg ssa.Value
+				for _, a := range j.Common().Args {
+					if isNamed(a.Type(), typesPkg, envName) || isNamed(a.Type(), processPkg, envName) {
+						arg = a
+					}
+				}
+				mk, isCall := origin(arg).(*ssa.Call)
+				if arg == nil || !isCall {
+					okAll, why = false, "the environment passed to the judgement is not built in this function"
+					continue
+				}
+				// built outside every loop, before the judgement, from the whole slice
+				for _, l := range view.Loops() {
+					if l.Body[mk.Block()] {
+						okAll, why = false, "the environment is (re)built inside the per-declaration loop"
+					}
+				}
+				whole := false
+				for _, a := range mk.Common().Args {
+					ap := accessPath(a)
+					if strings.HasSuffix(ap, ".Types") || strings.HasSuffix(ap, ".FunctionDefinitions") {
+						whole = true
+					}
+				}
+				if !whole {
+					okAll, why = false, "the environment is not built from the whole declaration slice of the global environment"
+				}
+				if !view.passedBefore(j, func(in ssa.Instruction) bool { return in == ssa.Instruction(mk) }) {
+					okAll, why = false, "a judgement can run before the environment is built"
+				}
+			}
+			v := Holds
+			if !okAll {
+				v = Violated
+			}
+			r.add(fnName(fn), construct, v, p.pos(fn.Pos()), why)
+		}
+	}
+}
+
+func runAnnotations(p *Program, r *RuleResult) {
+	add := p.Func(typesPkg, "AddMissingModalities")
+	// annotation classes (specification side) and where their sources are collected (by type)
+	classes := []string{"function provider type", "function parameter types", "assumed-name types", "process types"}
+	drv := findTypecheckDriver(p)
+	type coll struct {
+		fn   *ssa.Function
+		call ssa.Instruction
+	}
+	found := map[string][]coll{}
+	for _, ph := range drv.Phases {
+		fn := ph.Common().StaticCallee()
+		for _, c := range p.callsIn(fn) {
+			call, ok := c.(*ssa.Call)
+			if !ok {
+				continue
+			}
+			bi, ok := call.Common().Value.(*ssa.Builtin)
+			if !ok || bi.Name() != "append" {
+				continue
+			}
+			elems, ok := varargElems(call.Common().Args[1])
+			if !ok {
+				continue
+			}
+			for _, e := range elems {
+				var owner types.Type
+				fname := ""
+				switch x := e.val.(type) {
+				case *ssa.UnOp:
+					if a, ok := x.X.(*ssa.FieldAddr); ok {
+						owner = a.X.Type()
+						_, fname, _ = fieldNameOf(a)
+					}
+				case *ssa.Field:
+					owner = x.X.Type()
+					_, fname, _ = fieldNameOf(x)
+				}
+				if fname != "Type" || owner == nil {
+					continue
+				}
+				ap := accessPath(e.val)
+				cls := ""
+				switch {
+				case isNamed(owner, processPkg, "FunctionDefinition"):
+					cls = "function provider type"
+				case isNamed(owner, processPkg, "Process"):
+					cls = "process types"
+				case isNamed(owner, processPkg, "Name") && strings.Contains(ap, ".Parameters[]"):
+					cls = "function parameter types"
+				case isNamed(owner, processPkg, "Name"):
+					cls = "assumed-name types"
+				}
+				if cls != "" {
+					found[cls] = append(found[cls], coll{fn, call})
+				}
+			}
+		}
+	}
+	for _, cls := range classes {
+		construct := "annotation:" + cls
+		cs := found[cls]
+		if len(cs) == 0 {
+			r.add(fnName(drv.Driver), construct, Violated, p.pos(drv.Driver.Pos()), "the "+cls+" are not collected for mode completion and well-formedness checking in any typechecking phase")
+			continue
+		}
+		okAdd, okCheck := false, false
+		var fn *ssa.Function
+		for _, cl := range cs {
+			fn = cl.fn
+			view := p.View(cl.fn)
+			if len(view.mayReachFrom(cl.call, nil, func(in ssa.Instruction) bool {
+				c, ok := in.(*ssa.Call)
+				return ok && c.Common().StaticCallee() == add
+			}, nil)) > 0 {
+				okAdd = true
+			}
+			checks := view.mayReachFrom(cl.call, nil, func(in ssa.Instruction) bool {
+				c, ok := in.(*ssa.Call)
+				if !ok {
+					return false
+				}
+				return p.callsWellFormedness(c.Common().StaticCallee(), 0)
+			}, nil)
+			for _, ch := range checks {
+				call := ch.(*ssa.Call)
+				for _, b := range view.Blocks() {
+					if view.holdsAt(b, call, factNonNil) {
+						ins := view.Instrs(b)
+						if ret, ok := ins[len(ins)-1].(*ssa.Return); ok && isErrorValue(ret.Results[0], view, b, map[ssa.Value]bool{}) {
+							okCheck = true
+						}
+					}
+				}
+			}
+		}
+		switch {
+		case !okAdd:
+			r.add(fnName(fn), construct, Violated, p.pos(fn.Pos()), "the "+cls+" never reach AddMissingModalities: omitted modes stay unset")
+		case !okCheck:
+			r.add(fnName(fn), construct, Violated, p.pos(fn.Pos()), "the "+cls+" are not well-formedness checked with the error propagated")
+		default:
+			r.add(fnName(fn), construct, Holds, p.pos(fn.Pos()), "")
+		}
+	}
+	// cut annotation
+	var nm *tcMethod
+	for _, m := range p.typecheckMethods() {
+		if m.T.Obj().Name() == "NewForm" {
+			nm = m
+		}
+	}
+	if nm == nil {
+		anchorFail("NewForm.typecheckForm")
+	}
+	view := p.View(nm.Fn)
+	var addCall *ssa.Call
+	for _, c := range p.callsTo(nm.Fn, add) {
+		if strings.HasSuffix(accessPath(c.Common().Args[0]), ".new_name_c.Type") {
+			addCall = c.(*ssa.Call)
+		}
+	}
+	if addCall == nil {
+		r.add(fnName(nm.Fn), "annotation:cut annotation", Violated, p.pos(nm.Fn.Pos()), "the cut's type annotation never reaches AddMissingModalities")
+		return
+	}
+	// the body judgement typed at the annotation is dominated by a nil well-formedness result
+	ok := false
+	for _, k := range nm.Conts {
+		uses := false
+		for _, a := range k.Common().Args {
+			if strings.HasSuffix(accessPath(a), ".new_name_c.Type") {
+				uses = true
+			}
+		}
+		if !uses {
+			continue
+		}
+		for f := range view.FactsAt(k.Block()) {
+			c, isCall := f.v.(*ssa.Call)
+			if isCall && f.k == factNil && c.Common().StaticCallee() != nil && p.callsWellFormedness(c.Common().StaticCallee(), 0) {
+				if view.passedBefore(c, func(in ssa.Instruction) bool { return in == ssa.Instruction(addCall) }) {
+					ok = true
+				}
+			}
+		}
+	}
+	v := Holds
+	d := ""
+	if !ok {
+		v = Violated
+		d = "the spawned body is typed at the annotation without a preceding successful well-formedness check of the mode-completed annotation"
+	}
+	r.add(fnName(nm.Fn), "annotation:cut annotation", v, p.instrPos(addCall), d)
+}
+
+func (p *Program) callsWellFormedness(fn *ssa.Function, depth int) bool {
+	if fn == nil || fn.Blocks == nil || depth > 2 {
+		return false
+	}
+	if fn.Name() == "CheckTypeWellFormedness" || fn.Name() == "SanityChecksType" {
+		return true
+	}
+	for _, c := range p.callsIn(fn) {
+		if p.callsWellFormedness(c.Common().StaticCallee(), depth+1) {
+			return true
+		}
+	}
+	return false
+}
